@@ -1,8 +1,16 @@
 (* C10 - Applying a form substitutes simultaneously and nothing else.
    Property theorems only: each is closed by [exact] of a lemma of Proofs/CallP.v and followed by
    Print Assumptions.  Model: Model/CallM.v ([subst_sim] = expr._xreplace, [call] = __call__ with
-   _free_variables_subs (after the repairs 8f04492 / 8cb0139; [call_before_fix] = the code before them), [is_symmetric] = BilinearForm.is_symmetric); [interp] is an arbitrary
-   interpretation of operator nodes / Add / Mul / Pow / integrals, [rho] an arbitrary environment. *)
+   _free_variables_subs (after the repairs 8f04492 / 8cb0139; [call_before_fix] = the code before them),
+   [is_symmetric] = BilinearForm.is_symmetric); [interp] is an arbitrary interpretation of operator nodes / Add / Mul /
+   Pow / integrals, [rho] an arbitrary environment.
+   A function leaf [LFun vec name sp] carries the tag of its space: two functions with one name in different spaces are
+   equal for == ([leaf_pyeq]) but different dictionary keys ([leaf_eqb]: hash, then ==), and xreplace looks keys up.
+   The code decides three things with == ALONE (known findings C10-same-name-...): which functions of the integrands are
+   fields, which ONE symbol a keyword name binds, and the symmetry flag.  The model follows the code there; the full
+   statements are REFUTED with witnesses and proved under the minimal guard [names_identify]: no two distinct
+   function / constant symbols of the form carry one name.  [call_ids] / [is_symmetric_ids] = the proposed repair
+   (identities), for which the full statements hold. *)
 From Coq Require Import String ZArith List Bool Arith Permutation.
 From V Require Import Core.Terminal Core.DField Model.CallM Proofs.CallP.
 Import ListNotations.
@@ -105,6 +113,60 @@ Theorem C10_arguments_mentioning_each_other : forall (I : interp) rho a u v tr t
 Proof. exact call_mentions_each_other. Qed.
 Print Assumptions C10_arguments_mentioning_each_other.
 
+(* --- the identity of a function includes its space --------------------------------------------- *)
+Theorem C10_same_name_other_space_is_another_key : forall v n s s', s <> s' ->
+  leaf_pyeq (LFun v n s) (LFun v n s') = true /\ leaf_eqb (LFun v n s) (LFun v n s') = false /\
+  LFun v n s <> LFun v n s'.
+Proof. exact twin_keys. Qed.
+Print Assumptions C10_same_name_other_space_is_another_key.
+
+(* every declared argument is replaced by EXACTLY the value supplied for it (the i-th by the i-th) *)
+Theorem C10_argument_replaced_by_its_value : forall a vals i l v,
+  NoDup (vars a) -> nth_error (vars a) i = Some l -> nth_error vals i = Some v ->
+  subst_sim (combine (vars a) vals) (ELeaf l) = v.
+Proof. exact positional_exact. Qed.
+Print Assumptions C10_argument_replaced_by_its_value.
+
+(* in particular by a value that carries the same name and lives in another space: a(u_W, v_W) *)
+Theorem C10_same_name_value_replaces : forall a vals i v n s s',
+  NoDup (vars a) -> nth_error (vars a) i = Some (LFun v n s) -> nth_error vals i = Some (ELeaf (LFun v n s')) ->
+  subst_sim (combine (vars a) vals) (ELeaf (LFun v n s)) = ELeaf (LFun v n s').
+Proof. exact twin_value_replaces. Qed.
+Print Assumptions C10_same_name_value_replaces.
+
+(* and a function of the form that merely carries the name of a declared argument is not touched *)
+Theorem C10_same_name_in_form_untouched : forall a vals v n s',
+  ~ In (LFun v n s') (vars a) ->
+  subst_sim (combine (vars a) vals) (ELeaf (LFun v n s')) = ELeaf (LFun v n s').
+Proof. exact twin_in_form_untouched. Qed.
+Print Assumptions C10_same_name_in_form_untouched.
+
+(* EXACT description of a successful call: the i-th declared argument becomes the i-th value; every TRUE free symbol
+   (a function of the integrands that is not a declared argument as an identity, or a constant) that carries the
+   name of a keyword becomes that keyword's value - PARTIAL: under the guard that names are identities in the form
+   (refuted without it, below); every other leaf stays *)
+Theorem C10_call_exact_partial : forall a pos kw b,
+  call a pos kw = Ok b -> NoDup (vars a) -> NoDup (map fst kw) -> (forall x, In x (vars a) -> is_fun x = true) ->
+  exists vals S, values_of a pos = Some vals /\ length vals = length (vars a) /\
+    b = map_body (subst_sim S) (f_body a) /\
+    (forall i l v, nth_error (vars a) i = Some l -> nth_error vals i = Some v -> subst_sim S (ELeaf l) = v) /\
+    (names_identify (form_leaves a) -> atoms_ok a ->
+     forall x v, true_free a x -> In (leaf_name x, v) kw -> subst_sim S (ELeaf x) = v) /\
+    (forall l, ~ In l (vars a) -> ~ (In l (free_vars a) /\ In (leaf_name l) (map fst kw)) ->
+               subst_sim S (ELeaf l) = ELeaf l).
+Proof. exact call_exact_partial. Qed.
+Print Assumptions C10_call_exact_partial.
+
+(* contrast: a shortcut that drops the pairs with old == new ("an argument passed unchanged needs no
+   replacement") leaves the declared functions in place when the values carry their names *)
+Theorem C10_skipping_equal_arguments_refuted :
+  call_skip_equal twin_call_form [PVal (ELeaf wuW); PVal (ELeaf wvW)] [] = Ok (f_body twin_call_form) /\
+  call_skip_equal twin_call_form [PVal (ELeaf wuW); PVal (ELeaf wvW)] [] <>
+  call twin_call_form [PVal (ELeaf wuW); PVal (ELeaf wvW)] [] /\
+  In wu (body_leaves (f_body twin_call_form)).
+Proof. exact skip_equal_keeps_arguments. Qed.
+Print Assumptions C10_skipping_equal_arguments_refuted.
+
 (* --- keywords ----------------------------------------------------------------------------- *)
 Theorem C10_unknown_keyword_refused : forall a pos kw n v,
   values_of a pos <> None -> In (n, v) kw -> find_name n (free_vars a) = None ->
@@ -122,6 +184,73 @@ Theorem C10_keyword_never_names_argument : forall a n x,
   find_name n (free_vars a) = Some x -> lmem x (vars a) = true -> is_const x = true.
 Proof. exact kw_never_names_argument. Qed.
 Print Assumptions C10_keyword_never_names_argument.
+
+(* a keyword binds the free symbol that carries its name - PARTIAL: when the names of the free symbols are unambiguous -
+   and nothing else *)
+Theorem C10_keyword_binds_named_partial : forall fv kw d n v x,
+  unambiguous fv -> kw_dict fv kw = Some d -> NoDup (map fst kw) -> In (n, v) kw -> In x fv -> leaf_name x = n ->
+  lookup d x = Some v.
+Proof. exact kw_dict_binds_unamb. Qed.
+Print Assumptions C10_keyword_binds_named_partial.
+
+Theorem C10_keyword_binds_nothing_else : forall fv kw d x w,
+  kw_dict fv kw = Some d -> lookup d x = Some w -> In x fv /\ In (leaf_name x, w) kw.
+Proof. exact kw_dict_keys. Qed.
+Print Assumptions C10_keyword_binds_nothing_else.
+
+(* under the guard a keyword that names a true free symbol is not refused as unknown *)
+Theorem C10_named_free_symbol_known_partial : forall a x,
+  names_identify (form_leaves a) -> atoms_ok a -> true_free a x -> find_name (leaf_name x) (free_vars a) <> None.
+Proof. exact true_free_keyword_known. Qed.
+Print Assumptions C10_named_free_symbol_known_partial.
+
+(* REFUTED (known finding C10-same-name-field-not-free): "a keyword that names a free field of the form replaces it".
+   u_W * u * v with (u, v) declared in V: u_W is a true free symbol, a(p, q, u=g) is refused; with identities
+   ([call_ids], the proposed repair) it returns g * p * q *)
+Theorem C10_field_named_like_argument_refuted :
+  true_free twin_arg_form wuW /\ atoms_ok twin_arg_form /\
+  call twin_arg_form [PVal (ELeaf wp); PVal (ELeaf wq)] [("u", ELeaf wg)] = Err ErrUnknownKw /\
+  call_ids twin_arg_form [PVal (ELeaf wp); PVal (ELeaf wq)] [("u", ELeaf wg)]
+    = Ok [("dom:Omega", EMul [ELeaf wg; ELeaf wp; ELeaf wq])].
+Proof. exact field_named_like_argument_refuted. Qed.
+Print Assumptions C10_field_named_like_argument_refuted.
+
+(* REFUTED (known finding C10-same-name-keyword-binds-one): "a keyword replaces every free field that carries its name".
+   f_V * u * dx1(v) + f_W * dx1(u) * v: a(u, v, f=g) leaves one f in place; WHICH one depends on the iteration order
+   of the Python set of atoms, i.e. on the hash seed (both orders shown); with identities both are replaced *)
+Theorem C10_keyword_binds_one_of_several_refuted :
+  true_free twin_field_form wf /\ true_free twin_field_form wfW /\
+  (exists b, call twin_field_form [PVal (ELeaf wu); PVal (ELeaf wv)] [("f", ELeaf wg)] = Ok b /\ In wf (body_leaves b)) /\
+  (exists b, call twin_field_form' [PVal (ELeaf wu); PVal (ELeaf wv)] [("f", ELeaf wg)] = Ok b /\ In wfW (body_leaves b)) /\
+  (exists b, call_ids twin_field_form [PVal (ELeaf wu); PVal (ELeaf wv)] [("f", ELeaf wg)] = Ok b /\
+             forall x, In x (body_leaves b) -> leaf_name x <> "f").
+Proof. exact keyword_binds_one_of_several_refuted. Qed.
+Print Assumptions C10_keyword_binds_one_of_several_refuted.
+
+(* with identities (the proposed repair) the exact description holds without the guard, and under the guard the code
+   and the repair coincide *)
+Theorem C10_call_exact_with_identities : forall a pos kw b,
+  call_ids a pos kw = Ok b -> NoDup (vars a) -> NoDup (map fst kw) -> (forall x, In x (vars a) -> is_fun x = true) ->
+  exists vals S, values_of a pos = Some vals /\ length vals = length (vars a) /\
+    b = map_body (subst_sim S) (f_body a) /\
+    (forall i l v, nth_error (vars a) i = Some l -> nth_error vals i = Some v -> subst_sim S (ELeaf l) = v) /\
+    (atoms_ok a -> forall x v, true_free a x -> In (leaf_name x, v) kw -> subst_sim S (ELeaf x) = v) /\
+    (forall l, ~ In l (vars a) -> ~ (In l (free_vars_ids a) /\ In (leaf_name l) (map fst kw)) ->
+               subst_sim S (ELeaf l) = ELeaf l).
+Proof. exact call_ids_exact. Qed.
+Print Assumptions C10_call_exact_with_identities.
+
+Theorem C10_code_is_identities_under_guard : forall a pos kw,
+  names_identify (form_leaves a) -> call_ids a pos kw = call a pos kw.
+Proof. exact call_ids_call. Qed.
+Print Assumptions C10_code_is_identities_under_guard.
+
+(* calling a form with its own arguments and keywords is the keyword update alone (_update_free_variables) *)
+Theorem C10_own_arguments_with_keywords : forall a kw,
+  f_kind a = Bilinear -> (forall x, In x (vars a) -> is_fun x = true) ->
+  call a (own_args a) kw = update_free_variables a kw.
+Proof. exact call_own_keywords. Qed.
+Print Assumptions C10_own_arguments_with_keywords.
 
 (* FULL statement: a successful call is ONE simultaneous substitution of keywords and arguments together,
    with exactly one value per declared argument; its meaning is the form's meaning in the environment where
@@ -179,23 +308,47 @@ Proof. exact call_arity_before_fix. Qed.
 Print Assumptions C10_arity_before_fix.
 
 (* --- the symmetry flag ---------------------------------------------------------------------- *)
-Theorem C10_symmetry_flag_sound : forall (I : interp) a,
-  is_symmetric a = true ->
+(* PARTIAL: when names are identities in the form (no two distinct function / constant symbols carry one name),
+   a true flag means that the value does not change when trial and test values are exchanged *)
+Theorem C10_symmetry_flag_sound_partial : forall (I : interp) a,
+  names_identify (vars a ++ body_leaves (f_body a)) -> is_symmetric a = true ->
   forall rho, sem_result I rho (call a (own_args a) []) = sem_result I rho (call a (exch_args a) []).
-Proof. exact is_symmetric_sound. Qed.
-Print Assumptions C10_symmetry_flag_sound.
+Proof. exact is_symmetric_sound_partial. Qed.
+Print Assumptions C10_symmetry_flag_sound_partial.
 
-Theorem C10_symmetry_flag_exchange : forall (I : interp) a,
-  is_symmetric a = true ->
+Theorem C10_symmetry_flag_exchange_partial : forall (I : interp) a,
+  names_identify (vars a ++ body_leaves (f_body a)) -> is_symmetric a = true ->
   forall rho, sem_body I (upd I rho (exch_dict a)) (f_body a) = sem_body I rho (f_body a).
-Proof. exact is_symmetric_exchange. Qed.
-Print Assumptions C10_symmetry_flag_exchange.
+Proof. exact is_symmetric_exchange_partial. Qed.
+Print Assumptions C10_symmetry_flag_exchange_partial.
 
-(* never true for a form whose meaning changes when trial and test arguments are exchanged *)
-Theorem C10_flag_false_when_meaning_changes : forall (I : interp) a rho,
+(* under the guard: never true for a form whose meaning changes when trial and test arguments are exchanged *)
+Theorem C10_flag_false_when_meaning_changes_partial : forall (I : interp) a rho,
+  names_identify (vars a ++ body_leaves (f_body a)) ->
   sem_body I (upd I rho (exch_dict a)) (f_body a) <> sem_body I rho (f_body a) -> is_symmetric a = false.
-Proof. exact meaning_changes_flag_false. Qed.
-Print Assumptions C10_flag_false_when_meaning_changes.
+Proof. exact meaning_changes_flag_false_partial. Qed.
+Print Assumptions C10_flag_false_when_meaning_changes_partial.
+
+(* REFUTED (known finding C10-same-name-symmetric-flag): without the guard the flag is unsound - == ignores the spaces.
+   f_V * u * dx1(v) + f_W * dx1(u) * v: flag True, the value changes under exchange (integers: 43 vs 41) *)
+Theorem C10_symmetry_flag_refuted :
+  is_symmetric twin_field_form = true /\ is_symmetric_ids twin_field_form = false /\
+  sem_body Zinterp (upd Zinterp zrho2 (exch_dict twin_field_form)) (f_body twin_field_form)
+    <> sem_body Zinterp zrho2 (f_body twin_field_form).
+Proof. exact symmetry_flag_refuted. Qed.
+Print Assumptions C10_symmetry_flag_refuted.
+
+(* with identities (the proposed repair: a1 == a2 and hash(a1) == hash(a2)) the flag is sound for EVERY form *)
+Theorem C10_symmetry_flag_sound_with_identities : forall (I : interp) a,
+  is_symmetric_ids a = true ->
+  forall rho, sem_result I rho (call a (own_args a) []) = sem_result I rho (call a (exch_args a) []).
+Proof. exact is_symmetric_ids_sound. Qed.
+Print Assumptions C10_symmetry_flag_sound_with_identities.
+
+Theorem C10_flag_false_when_meaning_changes_with_identities : forall (I : interp) a rho,
+  sem_body I (upd I rho (exch_dict a)) (f_body a) <> sem_body I rho (f_body a) -> is_symmetric_ids a = false.
+Proof. exact meaning_changes_flag_ids_false. Qed.
+Print Assumptions C10_flag_false_when_meaning_changes_with_identities.
 
 (* the canonical argument order used by == does not change the meaning *)
 Theorem C10_structural_equality_sound : forall (I : interp) rho b1 b2,
@@ -226,16 +379,38 @@ Proof. split; [exact sym_form_flag|]. split; [exact nonsym_form_flag|exact nonsy
 (* the full theorems are not vacuous: a(w, z, f=g, c=3) succeeds, a((w, z), v) is refused *)
 Example C10_nonvacuous_call :
   let a := mkForm Bilinear [wu] [wv]
-             [("dom:Omega", EMul [ELeaf wc; ELeaf wf; EOp "Dot" [EOp "Grad" [ELeaf wu]; EOp "Grad" [ELeaf wv]]])] in
-  call a [PVal (ELeaf ww); PVal (ELeaf (LFun false "z"))] [("f", ELeaf (LFun false "g")); ("c", ELeaf (LNum 3 1))]
-    = Ok [("dom:Omega", EMul [ELeaf (LNum 3 1); ELeaf (LFun false "g");
-                              EOp "Dot" [EOp "Grad" [ELeaf ww]; EOp "Grad" [ELeaf (LFun false "z")]]])] /\
-  call a [PSeq [ELeaf ww; ELeaf (LFun false "z")]; PVal (ELeaf wv)] [] = Err ErrCount.
+             [("dom:Omega", EMul [ELeaf wc; ELeaf wf; EOp "Dot" [EOp "Grad" [ELeaf wu]; EOp "Grad" [ELeaf wv]]])] [wf; wu; wv] in
+  call a [PVal (ELeaf ww); PVal (ELeaf (LFun false "z" "V"))] [("f", ELeaf (LFun false "g" "V")); ("c", ELeaf (LNum 3 1))]
+    = Ok [("dom:Omega", EMul [ELeaf (LNum 3 1); ELeaf (LFun false "g" "V");
+                              EOp "Dot" [EOp "Grad" [ELeaf ww]; EOp "Grad" [ELeaf (LFun false "z" "V")]]])] /\
+  call a [PSeq [ELeaf ww; ELeaf (LFun false "z" "V")]; PVal (ELeaf wv)] [] = Err ErrCount.
 Proof. split; reflexivity. Qed.
+
+(* the guard is satisfiable (and holds for every form written with one function per name) *)
+Example C10_nonvacuous_guard :
+  names_identify (form_leaves sym_form) /\ atoms_ok sym_form /\ is_symmetric sym_form = true /\
+  ~ names_identify (form_leaves twin_field_form).
+Proof.
+  split; [|split; [|split]].
+  - intros x y Hx Hy _ _. simpl in Hx, Hy.
+    repeat (destruct Hx as [<-|Hx]); try contradiction; repeat (destruct Hy as [<-|Hy]); try contradiction;
+      simpl; intros E; try reflexivity; discriminate.
+  - intros l. simpl. split.
+    + intros [<-|[<-|[]]]; split; auto.
+    + intros [Hf H]. repeat (destruct H as [<-|H]; auto); try contradiction.
+  - exact sym_form_flag.
+  - intros G. assert (H : wf = wfW); [|discriminate]. apply G; simpl; auto 10.
+Qed.
+
+(* a(u_W, v_W): values that carry the names of the declared arguments and live in another space *)
+Example C10_nonvacuous_same_name_call :
+  call twin_call_form [PVal (ELeaf wuW); PVal (ELeaf wvW)] [] =
+  Ok [("dom:Omega", EAdd [EMul [ELeaf wf; EOp "Dot" [EOp "Grad" [ELeaf wuW]; EOp "Grad" [ELeaf wvW]]]; EMul [ELeaf wuW; ELeaf wvW]])].
+Proof. exact twin_call. Qed.
 
 (* mention-each-other on a concrete tree: a(u + v, u) for the integrand u*dx1(v) *)
 Example C10_mention_example :
-  let a := mkForm Bilinear [wu] [wv] [("dom:Omega", EMul [ELeaf wu; EOp "dx1" [ELeaf wv]])] in
+  let a := mkForm Bilinear [wu] [wv] [("dom:Omega", EMul [ELeaf wu; EOp "dx1" [ELeaf wv]])] [wu; wv] in
   call a [PVal (EAdd [ELeaf wu; ELeaf wv]); PVal (ELeaf wu)] []
   = Ok [("dom:Omega", EMul [EAdd [ELeaf wu; ELeaf wv]; EOp "dx1" [ELeaf wu]])].
 Proof. reflexivity. Qed.
